@@ -68,7 +68,9 @@ func c20Judge(c spec.Case, evs []spec.Event, d *Death) CaseResult {
 			}
 		}
 		if strings.HasPrefix(d.ExitErr, "watchdog") {
-			sig = "host-hung"
+			// a hang is not among the things this property excludes (races, double closes, panics, duplicate
+			// ids): not decided here
+			return CaseResult{Verdict: "inconclusive", Inconcl: "the host child hung during a concurrent round (liveness is not part of C20): " + d.ExitErr + "\n" + trunc(d.Stderr, 1500)}
 		}
 		viol(sig, "the host process died during a concurrent round: "+d.ExitErr+"\n"+trunc(d.Stderr, 3000))
 		return res
@@ -87,8 +89,10 @@ func c20Judge(c spec.Case, evs []spec.Event, d *Death) CaseResult {
 	}
 	sort.Strings(ops)
 	res.Sample = map[string]any{"round": p, "ops": ops, "host_ids_sample": o.HostIDs, "plugin_ids_sample": o.PluginIDs}
-	if !o.Returned {
-		viol("round-hung", "the round did not finish within 120 s\n"+o.Dump)
+	if !o.Returned && len(o.Panics) == 0 && len(o.DupHost) == 0 && len(o.DupPlugin) == 0 {
+		// the statement excludes data races, double closes, panics and duplicate ids; a round that does not
+		// finish is none of these (C03/C04/C09/C18 decide liveness): the case is not decided here
+		return CaseResult{Verdict: "inconclusive", Inconcl: fmt.Sprintf("the round did not finish within 120 s (liveness is not part of C20) [kind=%s goroutines=%d shutdownRace=%v seed=%d]\n%s", p.Kind, p.G, p.ShutdownRace, p.Seed, trunc(o.Dump, 2500)), Class: res.Class}
 	}
 	for _, pn := range o.Panics {
 		viol("panic:"+trunc(pn, 50), "a call panicked: "+pn)
